@@ -447,7 +447,12 @@ class GibbsSampling(MarkovChain):
             factor = factor_product(*factors)
             scope = set(factor.scope())
             for tup in itertools.product(*[range(card) for card in other_cards]):
-                states = [State(v, s) for v, s in zip(other_vars, tup) if v in scope]
+                # `tup` holds state numbers; `reduce` expects state names.
+                states = [
+                    State(v, factor.get_state_names(v, s))
+                    for v, s in zip(other_vars, tup)
+                    if v in scope
+                ]
                 reduced_factor = factor.reduce(states, inplace=False)
                 kernel[tup] = reduced_factor.values / sum(reduced_factor.values)
             self.transition_models[var] = kernel
@@ -486,8 +491,9 @@ class GibbsSampling(MarkovChain):
             factor = factors_dict[var]
             scope = set(factor.scope())
             for tup in itertools.product(*[range(card) for card in other_cards]):
+                # `tup` holds state numbers; `reduce` expects state names.
                 states = [
-                    State(first_var, s)
+                    State(first_var, factor.get_state_names(first_var, s))
                     for first_var, s in zip(other_vars, tup)
                     if first_var in scope
                 ]
